@@ -115,6 +115,25 @@ def run_mat(shard, res):
                         res.violate(violation(f'frommatrix:{bclass}', f'{name}: frommatrix(asmatrix(x)) != x', case, want, got, head))
                 except Exception as e:
                     res.violate(violation(f'asmatrix:dense:raises:{bclass}', f'{name}: {type(e).__name__}: {e}', case, '', repr(e), head))
+            # the matrix is that of the *current* coefficients, and a returned matrix is the caller's: after an in-place change of
+            # a returned matrix and of the multivector, asmatrix() is again the linear combination of the blade matrices
+            if n >= 2:
+                res.evals += 1
+                try:
+                    w = nmv(alg, keys, [3 + 2 * i for i in range(n)])
+                    m1 = w.asmatrix()
+                    try:
+                        m1 *= 0
+                    except Exception:
+                        pass
+                    w.values()[1] = 1000
+                    m2 = np.array(w.asmatrix())
+                    lin = sum((v * mats[k] for k, v in w.items()), 0 * mats[0])
+                    if not np.array_equal(m2, lin):
+                        res.violate(violation(f'asmatrix:after-inplace-change:{bclass}', f'{name}: after an in-place change of x (and of a matrix returned earlier) x.asmatrix() is not the matrix of the current x',
+                                              case, 'matrix of the current coefficients', 'different', head))
+                except Exception as e:
+                    res.violate(violation(f'asmatrix:after-inplace-change:raises:{bclass}', f'{name}: {type(e).__name__}: {e}', case, '', repr(e), head))
         if len(res.samples) < 2 and alg.d >= 2:
             res.sample({'config': name, 'blade_pairs': n * n, 'matrix_size': n})
 
